@@ -16,6 +16,10 @@ def body(ctx):
     # Color3 / UDim2 constructor calls
     outdir, meta = ctx.harness("c14r", n // 3)
     ctx.correspond(outdir, nontrivial_tag=lambda t: "diagnostics" in t, shrink_group="c14r")
+    # … and under end-anchored ignore patterns (`^_$` for unused_variable, shadowing, unscoped_variables): a name that merely
+    # starts with `_` matches no pattern before or after, so it is renamed to a name without the prefix
+    outdir, meta = ctx.harness("c14p", n // 3)
+    ctx.correspond(outdir, nontrivial_tag=lambda t: "diagnostics" in t, shrink_group="c14p")
     # manual_table_clone against its model (whose syntactic half is proved spelling-independent up to `pairs` / `ipairs` / `next`:
     # C14_clone_shape_invariant): loops over `pairs`, `ipairs`, `next`, and script functions with names like `spairs`, `xipairs`
     outdir, meta = ctx.harness("clone", 100 if ctx.tier == "quick" else 1500)
